@@ -6,7 +6,7 @@
    the client that popped it is stored inside it, so "the poll that was handed that client's offer"
    is the entry holding the client. Proofs: Proofs/BrokerProofs.v, BrokerSteps.v, BrokerThms.v. *)
 From Coq Require Import List NArith ZArith Bool.
-From Snow Require Import Model.Broker Proofs.BrokerProofs Proofs.BrokerSteps Proofs.BrokerThms.
+From Snow Require Import Model.Broker Proofs.BrokerProofs Proofs.BrokerSteps Proofs.BrokerThms Proofs.BrokerHist.
 Import ListNotations.
 Open Scope N_scope.
 
@@ -19,6 +19,22 @@ Theorem C02_answer_routing : forall v br s p e c a,
   (forall m, e_w e = W_Done (PMatch m) -> m_offer m = c_offer c).
 Proof. exact answer_routing. Qed.
 
+(* The same over histories, at full strength: the answer a client is given was carried by an answer request OF THE
+   HISTORY (label L_Answer sid a at some position), made under the session id of the poll holding this client, and
+   at the moment that request was made its session-id lookup resolved to this very poll (entry p) - not merely to
+   some poll registered under an equal id at some other time. *)
+Theorem C02_answer_resolved_to_this_poll : forall v br ls s p e c a,
+  run v (init br) ls = Some s -> nth_error (entries s) p = Some e -> e_cl e = Some c -> client_answered c a ->
+  exists pre post s1, ls = pre ++ L_Answer (e_sid e) a :: post /\ run v (init br) pre = Some s1 /\
+                      lookup (e_sid e) (idmap s1) = Some p.
+Proof. exact answer_resolved_to_this_poll. Qed.
+
+(* Each proxy poll receives at most one offer: in any history (from any state) no poll occurs in two accepted client
+   matches - once popped, a poll never returns to the pool (C03_left_pool_forever). *)
+Theorem C02_poll_gets_at_most_one_offer : forall v s0 pre mid post n1 f1 o1 n2 f2 o2 p q s,
+  run v s0 (pre ++ L_Client n1 f1 o1 (Some p) :: mid ++ L_Client n2 f2 o2 (Some q) :: post) = Some s -> p <> q.
+Proof. exact poll_gets_at_most_one_offer. Qed.
+
 (* Each offer is handed to at most one poll (a client sits in at most one entry); each poll holds at
    most one client and returns at most one response by construction of [entry]. *)
 Theorem C02_offer_once : forall v br s p q e1 e2 c1 c2,
@@ -26,19 +42,67 @@ Theorem C02_offer_once : forall v br s p q e1 e2 c1 c2,
   e_cl e1 = Some c1 -> e_cl e2 = Some c2 -> c_id c1 = c_id c2 -> p = q.
 Proof. exact offer_once. Qed.
 
-(* A match response carries the offer and NAT type of the client that claimed this poll and the relay
-   URL configured for the bridge fingerprint that client named. *)
+(* ---- bridges. The bridge list can be replaced at any step (label L_Install = LoadBridgeInfo; [bridges s] is the
+   list current in s, the ghost [br_hist s] every list installed so far, newest first). A client label carries
+   the fingerprint field as sent (None = empty); [fp_of] is the defaulting of DecodeClientPollRequest. The client
+   record remembers (ghost) the URL [c_url] that the list current at its request configured for its fingerprint
+   and the number [c_epoch] of lists installed until then. ---- *)
+
+(* the ghost history means what it says *)
+Theorem C02_install_history : forall v s l s', step v s l = Some s' ->
+  bridges s' = (match l with L_Install br => br | _ => bridges s end) /\
+  br_hist s' = (match l with L_Install br => br :: br_hist s | _ => br_hist s end).
+Proof. exact step_hist. Qed.
+
+(* An accepted client request is checked against the list installed at the time of the request: the client is
+   recorded with the fingerprint it named (the default bridge if it named none) and the URL this list configures. *)
+Theorem C02_client_checked : forall v s n ofp o p s',
+  step v s (L_Client n ofp o (Some p)) = Some s' ->
+  exists e c, nth_error (entries s') p = Some e /\ e_cl e = Some c /\ c_fp c = fp_of ofp /\ c_offer c = o /\
+    c_nat c = n /\ lookup (fp_of ofp) (bridges s) = Some (c_url c) /\ c_epoch c = List.length (br_hist s) /\
+    bridges s' = bridges s.
+Proof. exact client_checked. Qed.
+
+(* A match response carries the offer and NAT type of the client that claimed this poll, and a relay URL that an
+   installed list configures for the fingerprint that client named; it is the URL of the list installed at the time
+   of the client's request unless a list was installed after that request (the handler looks the URL up when it
+   replies: see C02_reinstall_witness). *)
 Theorem C02_relay_url : forall v br s p e m,
   reachable v br s -> nth_error (entries s) p = Some e -> e_w e = W_Done (PMatch m) ->
-  exists c, e_cl e = Some c /\ m_offer m = c_offer c /\ m_nat m = c_nat c /\ lookup (c_fp c) br = Some (m_url m).
+  exists c, e_cl e = Some c /\ m_offer m = c_offer c /\ m_nat m = c_nat c /\
+    (exists b, In b (br_hist s) /\ lookup (c_fp c) b = Some (m_url m)) /\
+    (exists b, In b (br_hist s) /\ lookup (c_fp c) b = Some (c_url c)) /\
+    (m_url m = c_url c \/ (c_epoch c < List.length (br_hist s))%nat).
 Proof. exact match_response. Qed.
 
-(* A client naming a fingerprint absent from the bridge list is never matched: no entry changes. *)
-Theorem C02_unknown_bridge : forall v s n fp o ch s',
-  step v s (L_Client n fp o ch) = Some s' -> lookup fp (bridges s) = None ->
+(* With the list installed once and for all (what the broker binary does: main installs it before serving) this
+   is simply: the relay URL configured for the fingerprint the client named. *)
+Theorem C02_relay_url_static : forall v br s p e m,
+  reachable v br s -> br_hist s = [br] -> nth_error (entries s) p = Some e -> e_w e = W_Done (PMatch m) ->
+  exists c, e_cl e = Some c /\ m_offer m = c_offer c /\ m_nat m = c_nat c /\ lookup (c_fp c) br = Some (m_url m).
+Proof. exact match_response_static. Qed.
+
+(* The proxy handler's own bridge lookup can fail (the poll is answered with an error and the client's offer is
+   lost) only if a list was installed after the client's request. *)
+Theorem C02_proxy_error_only_after_reinstall : forall v br s p e,
+  reachable v br s -> nth_error (entries s) p = Some e -> e_w e = W_Done PError ->
+  exists c, e_cl e = Some c /\ (c_epoch c < List.length (br_hist s))%nat.
+Proof. exact proxy_error_only_after_reinstall. Qed.
+
+(* A client naming a fingerprint absent from the list installed at the time of its request is never matched:
+   no entry changes. *)
+Theorem C02_unknown_bridge : forall v s n ofp o ch s',
+  step v s (L_Client n ofp o ch) = Some s' -> lookup (fp_of ofp) (bridges s) = None ->
   ch = None /\ entries s' = entries s /\ idmap s' = idmap s /\
-  done_clients s' = (next_cid s, n, fp, o, CBadFingerprint) :: done_clients s.
+  done_clients s' = (next_cid s, n, fp_of ofp, o, CBadFingerprint) :: done_clients s.
 Proof. exact unknown_bridge_never_matched. Qed.
+
+(* A client that names no bridge is treated exactly as one naming the default bridge: by C02_client_checked it is
+   matched only if the installed list has the default fingerprint and the proxy is told that bridge's URL; by
+   C02_unknown_bridge it is refused when an installed list replaced the built-in default bridge. *)
+Theorem C02_default_bridge : forall v s n o ch,
+  step v s (L_Client n None o ch) = step v s (L_Client n (Some default_fp) o ch).
+Proof. exact default_bridge. Qed.
 
 (* The invariant behind these statements holds in every reachable state of both versions. *)
 Theorem C02_invariant : forall v br s, reachable v br s -> Inv v s.
@@ -48,7 +112,7 @@ Proof. exact reachable_inv. Qed.
 Example C02_example :
   exists s, run V1 (init [(7, 9); (8, 10)])
     [L_Poll 1 NatUnrestricted 1 0; L_Poll 2 NatRestricted 1 3;
-     L_Client NatRestricted 7 100 (Some 0%nat); L_Client NatUnrestricted 8 101 (Some 1%nat);
+     L_Client NatRestricted (Some 7) 100 (Some 0%nat); L_Client NatUnrestricted (Some 8) 101 (Some 1%nat);
      L_RvOffer 1; L_RvOffer 0; L_RvForward 0; L_RvForward 1;
      L_Answer 2 502; L_Answer 1 501; L_AnswerPut 0; L_AnswerPut 1;
      L_CTakeAnswer 0; L_CTakeAnswer 1; L_CCleanup 1; L_CCleanup 0] = Some s /\
@@ -59,3 +123,53 @@ Proof.
   eexists. split; [vm_compute; reflexivity|]. split; [vm_compute; reflexivity|].
   split; eexists; eexists; (split; [vm_compute; reflexivity|]); (split; [reflexivity|]); right; reflexivity.
 Qed.
+
+(* non-vacuity of the bridge statements: (1) a client naming no bridge is matched on the built-in list and its proxy
+   is told the default bridge's URL; after an installed list replaced the default bridge it is refused;
+   (2) C02_reinstall_witness: a list installed between a client's request and the proxy handler's reply decides the
+   URL the proxy is told (10 instead of 9), or makes the handler fail. *)
+Example C02_default_bridge_example :
+  (exists s e m, run V1 (init builtin_bridges)
+     [L_Poll 1 NatUnrestricted 1 0; L_Client NatRestricted None 100 (Some 0%nat); L_RvOffer 0; L_RvForward 0] = Some s /\
+     nth_error (entries s) 0 = Some e /\ e_w e = W_Done (PMatch m) /\ m_url m = default_url) /\
+  (exists s, run V1 (init builtin_bridges)
+     [L_Install [(7, 9)]; L_Poll 1 NatUnrestricted 1 0; L_Client NatRestricted None 100 None] = Some s /\
+     done_clients s = [(0%nat, NatRestricted, default_fp, 100, CBadFingerprint)]).
+Proof. split; [eexists; eexists; eexists|eexists]; vm_compute; repeat split. Qed.
+
+Example C02_reinstall_witness :
+  (exists s e c m, run V1 (init [(7, 9)])
+     [L_Poll 1 NatUnrestricted 1 0; L_Client NatRestricted (Some 7) 100 (Some 0%nat); L_Install [(7, 10)];
+      L_RvOffer 0; L_RvForward 0] = Some s /\
+     nth_error (entries s) 0 = Some e /\ e_cl e = Some c /\ e_w e = W_Done (PMatch m) /\
+     c_url c = 9 /\ m_url m = 10 /\ (c_epoch c < List.length (br_hist s))%nat) /\
+  (exists s e, run V1 (init [(7, 9)])
+     [L_Poll 1 NatUnrestricted 1 0; L_Client NatRestricted (Some 7) 100 (Some 0%nat); L_Install [(8, 10)];
+      L_RvOffer 0; L_RvForward 0] = Some s /\
+     nth_error (entries s) 0 = Some e /\ e_w e = W_Done PError).
+Proof.
+  split.
+  - eexists; eexists; eexists; eexists. vm_compute. repeat split. apply le_n.
+  - eexists; eexists. vm_compute. repeat split.
+Qed.
+
+(* non-vacuity of the history statements: the run of C02_example has the shape required by
+   C02_poll_gets_at_most_one_offer (two accepted matches, polls 0 and 1) and contains the answer requests that
+   C02_answer_resolved_to_this_poll finds *)
+Example C02_history_example :
+  [L_Poll 1 NatUnrestricted 1 0; L_Poll 2 NatRestricted 1 3;
+   L_Client NatRestricted (Some 7) 100 (Some 0%nat); L_Client NatUnrestricted (Some 8) 101 (Some 1%nat);
+   L_RvOffer 1; L_RvOffer 0; L_RvForward 0; L_RvForward 1; L_Answer 2 502; L_Answer 1 501] =
+  [L_Poll 1 NatUnrestricted 1 0; L_Poll 2 NatRestricted 1 3] ++ L_Client NatRestricted (Some 7) 100 (Some 0%nat) ::
+  [] ++ L_Client NatUnrestricted (Some 8) 101 (Some 1%nat) ::
+  [L_RvOffer 1; L_RvOffer 0; L_RvForward 0; L_RvForward 1; L_Answer 2 502; L_Answer 1 501].
+Proof. reflexivity. Qed.
+
+(* The default bridge on the wire (C12's decoder composed with the matching machine): a client poll whose JSON has no
+   fingerprint field decodes to the default fingerprint, i.e. to what [fp_of None] stands for. *)
+From Coq Require Import String.
+From Snow Require Import Lib.Wire Model.JsonBoundary Model.Messages Proofs.MessagesProofs Proofs.BrokerWireProofs.
+
+Theorem C02_wire_default_bridge : forall v o n f,
+  decode_client_poll_body v = Ok (o, n, f) -> absent "fingerprint"%string v -> f = DEFAULT_FINGERPRINT.
+Proof. exact client_absent_fingerprint_names_default. Qed.
